@@ -197,7 +197,70 @@ theorem run_eq_ref {klt : K → K → Bool} (st : StrictTotal klt) (tomb : Ver K
     show run klt tomb sb eb h rest = _
     rw [ih]; rfl
 
+/-! ## scans opened while writes are in flight -/
+
+theorem readTs_le (assigned : Nat) : ∀ inflight : List Nat, readTs assigned inflight ≤ assigned
+  | [] => Nat.le_refl _
+  | s :: rest => by
+    have ih := readTs_le assigned rest
+    show (if s ≤ readTs assigned rest then s - 1 else readTs assigned rest) ≤ assigned
+    split <;> omega
+
+/-- the read timestamp lies below every write that is still in flight -/
+theorem readTs_lt (assigned : Nat) : ∀ (inflight : List Nat) (s : Nat), s ∈ inflight → 0 < s → readTs assigned inflight < s
+  | [], _, h, _ => by cases h
+  | x :: rest, s, h, hs => by
+    show (if x ≤ readTs assigned rest then x - 1 else readTs assigned rest) < s
+    rcases List.mem_cons.mp h with e | h'
+    · subst e; split <;> omega
+    · have ih := readTs_lt assigned rest s h' hs
+      split <;> omega
+
+theorem lateWritesAbove_of_forall (ts : Nat) : ∀ toks : List (Tok K),
+    (∀ es, Tok.write es ∈ toks → ∀ e ∈ es, ts < e.2) → LateWritesAbove ts toks
+  | [], _ => trivial
+  | .op _ :: rest, h => lateWritesAbove_of_forall ts rest (fun es hm => h es (List.mem_cons_of_mem _ hm))
+  | .other :: rest, h => lateWritesAbove_of_forall ts rest (fun es hm => h es (List.mem_cons_of_mem _ hm))
+  | .write es :: rest, h =>
+    ⟨h es List.mem_cons_self, lateWritesAbove_of_forall ts rest (fun es' hm => h es' (List.mem_cons_of_mem _ hm))⟩
+
+/-- **a scan never shows a write that completed after it was opened**: the scan is opened while
+    the writes `inflight` have been assigned their numbers and have not left the wait list, and
+    takes `readTs` as its timestamp.  Every entry that reaches the captured memtable afterwards
+    belongs to one of those writes or to a write that begins later (a number above `assigned`).
+    Then every call shows what the reference cursor over the list of open time shows — which
+    holds nothing of a write in flight, not even the entries it had already inserted. -/
+theorem run_openAt {klt : K → K → Bool} (st : StrictTotal klt) (tomb : Ver K → Bool) (sb eb : Bound K)
+    (assigned : Nat) (inflight : List Nat) (hpos : ∀ s ∈ inflight, 0 < s) (mem rest : List (Ver K))
+    (toks : List (Tok K))
+    (hlate : ∀ es, Tok.write es ∈ toks → ∀ e ∈ es, e.2 ∈ inflight ∨ assigned < e.2) :
+    run klt tomb sb eb (openAt assigned inflight mem rest) toks
+      = Ref.run ⟨view klt tomb sb eb (openAt assigned inflight mem rest), 0⟩ (opsOf toks) := by
+  apply run_eq_ref st tomb sb eb toks (openAt assigned inflight mem rest)
+  apply lateWritesAbove_of_forall
+  intro es hm e he
+  show readTs assigned inflight < e.2
+  rcases hlate es hm e he with h | h
+  · exact readTs_lt assigned inflight e.2 h (hpos _ h)
+  · have := readTs_le assigned inflight; omega
+
+/-- … and the list of open time holds no entry of a write in flight -/
+theorem view_excludes_inflight {klt : K → K → Bool} (tomb : Ver K → Bool) (sb eb : Bound K)
+    (assigned : Nat) (inflight : List Nat) (hpos : ∀ s ∈ inflight, 0 < s) (mem rest : List (Ver K))
+    (e : Ver K) (he : e ∈ view klt tomb sb eb (openAt assigned inflight mem rest)) : e.2 ∉ inflight := by
+  intro hin
+  have hlt := readTs_lt assigned inflight e.2 hin (hpos _ hin)
+  unfold view at he
+  simp only [List.mem_filter] at he
+  have hl := he.1.2
+  unfold isLive at hl
+  simp only [Bool.and_eq_true, decide_eq_true_eq] at hl
+  have : e.2 ≤ readTs assigned inflight := hl.1.1
+  omega
+
 end Blue.Snap
 
+#print axioms Blue.Snap.run_openAt
+#print axioms Blue.Snap.view_excludes_inflight
 #print axioms Blue.Snap.run_eq_ref
 #print axioms Blue.Snap.view_eq
